@@ -362,6 +362,9 @@ struct ScriptIo<'c, 'd> {
     /// true when poll_flush returned Ok after the most recent successful write
     flushed_since_write: bool,
     io_calls: u64,
+    /// read style: fill through `initialize_unfilled()` + `advance(n)` (as compat / TLS adapters do:
+    /// more of the buffer is initialised than filled) instead of `put_slice`
+    init_style: bool,
 }
 
 impl<'c, 'd> ScriptIo<'c, 'd> {
@@ -376,6 +379,7 @@ impl<'c, 'd> ScriptIo<'c, 'd> {
             faults_allowed,
             flushed_since_write: true,
             io_calls: 0,
+            init_style: false,
         }
     }
 }
@@ -420,7 +424,13 @@ impl AsyncRead for ScriptIo<'_, '_> {
         this.last_pending = ev == IoEvent::ReadPending;
         match ev {
             IoEvent::Read(n) => {
-                buf.put_slice(&this.incoming[this.rpos..this.rpos + n]);
+                if this.init_style {
+                    let dst = buf.initialize_unfilled();
+                    dst[..n].copy_from_slice(&this.incoming[this.rpos..this.rpos + n]);
+                    buf.advance(n);
+                } else {
+                    buf.put_slice(&this.incoming[this.rpos..this.rpos + n]);
+                }
                 this.rpos += n;
                 Poll::Ready(Ok(()))
             }
@@ -541,7 +551,7 @@ impl Drop for ScriptIo<'_, '_> {
 
 /// Receive side: returns Err(description) on an oracle failure; the transport is dropped before the
 /// script's log is read back.
-fn recv_run2(ch: &mut Chooser, set: &str, faults: bool) -> Result<bool, String> {
+fn recv_run2(ch: &mut Chooser, set: &str, faults: bool, init_style: bool) -> Result<bool, String> {
     let msgs = msg_set(set);
     let frames = frames_of(&msgs);
     let stream: Vec<u8> = frames.concat();
@@ -549,7 +559,8 @@ fn recv_run2(ch: &mut Chooser, set: &str, faults: bool) -> Result<bool, String> 
     let mut end: Option<TokioTransportError> = None;
     {
         let cell = RefCell::new(ch);
-        let io = ScriptIo::new(&cell, stream.clone(), faults);
+        let mut io = ScriptIo::new(&cell, stream.clone(), faults);
+        io.init_style = init_style;
         let mut t = Box::pin(TokioTransport::new(io));
         let waker = Waker::from(Arc::new(NoopWake));
         let mut cx = Context::from_waker(&waker);
@@ -755,6 +766,9 @@ fn tokio_part(cx: &Ctx, tier: Tier) -> serde_json::Value {
         ("recv", "tiny", true, false, 64),  // all scripts outright (11 bytes)
         ("recv", "three", true, false, tier.pick(2, 5)),
         ("recv", "item", true, false, tier.pick(2, 5)),
+        // (for recv the fourth element selects the reader style initialize_unfilled + advance)
+        ("recv", "tiny", true, true, 64),
+        ("recv", "three", false, true, tier.pick(2, 5)),
         ("send", "tiny", true, false, 64),
         ("send", "tiny", true, true, 64),
         ("send", "three", true, true, tier.pick(2, 5)),
@@ -772,7 +786,7 @@ fn tokio_part(cx: &Ctx, tier: Tier) -> serde_json::Value {
             cx.evals.fetch_add(1, Ordering::Relaxed);
             let r = mcx::catch(|| {
                 if dir == "recv" {
-                    recv_run2(ch, set, faults)
+                    recv_run2(ch, set, faults, flush_each)
                 } else {
                     send_run(ch, set, faults, flush_each)
                 }
@@ -1116,7 +1130,7 @@ pub fn replay(w: &serde_json::Value) -> ! {
             let faults = w["faults"].as_bool().unwrap_or(true);
             let r = mcx::catch(|| {
                 if w["direction"].as_str() == Some("recv") {
-                    recv_run2(&mut ch, set, faults)
+                    recv_run2(&mut ch, set, faults, w["flush_each"].as_bool().unwrap_or(false))
                 } else {
                     send_run(&mut ch, set, faults, w["flush_each"].as_bool().unwrap_or(false))
                 }
